@@ -251,6 +251,29 @@ impl World {
                 _ => outs.push([9, 0, 0]),
             },
             11 => self.svc.bump_counter(op[2] as usize),
+            12 => match self.conns.get_mut(&op[2]) {
+                // shut down the write half of a held substream (tcp::Substream::poll_shutdown through
+                // the public AsyncWrite impl), to completion whatever its io result, and keep holding it
+                Some(env) if !env.subs.is_empty() => {
+                    let waker = self.waker.clone();
+                    let mut cx = Context::from_waker(&waker);
+                    let sub = env.subs.last_mut().unwrap();
+                    for _ in 0..1000 {
+                        let r = catch_unwind(AssertUnwindSafe(|| {
+                            tokio::io::AsyncWrite::poll_shutdown(std::pin::Pin::new(&mut *sub), &mut cx)
+                        }));
+                        match r {
+                            Ok(Poll::Pending) => continue,
+                            Ok(Poll::Ready(_)) => break,
+                            Err(_) => {
+                                outs.push([8, 0, 0]);
+                                break;
+                            }
+                        }
+                    }
+                }
+                _ => outs.push([9, 0, 0]),
+            },
             _ => {}
         }
         self.quiesce(conn_of_sub, &mut outs);
@@ -291,7 +314,7 @@ fn op_len(tag: u64) -> Option<usize> {
         1 | 2 => 2,
         3 => 3,
         4 => 2,
-        5..=11 => 1,
+        5..=12 => 1,
         _ => return None,
     })
 }
@@ -411,7 +434,16 @@ impl Gen {
                     } else {
                         None
                     },
-                94..=95 => Some(vec![dt, 11, r.range(1, 5)]),
+                94 => Some(vec![dt, 11, r.range(1, 5)]),
+                95 | 98 =>
+                    if !w.conns.is_empty() {
+                        // prefer a connection on which a substream is held
+                        let held: Vec<u64> = w.conns.iter().filter(|(_, e)| !e.subs.is_empty()).map(|(c, _)| *c).collect();
+                        let cs: Vec<u64> = if held.is_empty() { w.conns.keys().copied().collect() } else { held };
+                        Some(vec![dt, 12, cs[r.below(cs.len() as u64) as usize]])
+                    } else {
+                        None
+                    },
                 96..=97 if self.garbage => match r.below(4) {
                     0 => Some(vec![dt, 4, r.below(12), 1]),
                     1 => Some(vec![dt, 5, r.below(12)]),
